@@ -109,6 +109,9 @@ func shrinkRedis(sc *RedisScenario) []harness.Scenario {
 	}
 	for i := range sc.Conns {
 		i := i
+		if sc.Conns[i].LeaveAfter > 0 {
+			add(func(c *RedisScenario) bool { c.Conns[i].LeaveAfter = 0; return true })
+		}
 		if sc.Conns[i].SlowRead > 0 || sc.Conns[i].Early || sc.Conns[i].MaxOut > 0 {
 			add(func(c *RedisScenario) bool {
 				c.Conns[i].SlowRead, c.Conns[i].Early, c.Conns[i].MaxOut = 0, false, 0
